@@ -115,6 +115,8 @@ func (q Quantity) ToProtoQuantity() *dtpb.Quantity {
 
 	if q.unit != "" {
 		res.Unit = fhir.String(q.unit)
+		// The coded unit is what system.From (and FHIRPath comparison) reads back.
+		res.Code = fhir.Code(q.unit)
 	}
 
 	return res
